@@ -504,7 +504,8 @@ impl C17 {
             let cfg = ant_bootstrap::BootstrapCacheConfig::empty().with_cache_path(&path).with_max_peers(3).with_addrs_per_peer(1);
             let nums: [u64; 10] = [0, 1, u32::MAX as u64, u32::MAX as u64 + 1, i64::MAX as u64 - 86_401, i64::MAX as u64 - t.cx.rng.gen_range(0..86_400), i64::MAX as u64, i64::MAX as u64 + 1, u64::MAX - 1, u64::MAX];
             for _ in 0..6 {
-                let peers: serde_json::Map<String, Value> = (0..t.cx.rng.gen_range(1..5))
+                // up to five peers more than the reader's limit of three (a file written under another configuration)
+                let peers: serde_json::Map<String, Value> = (0..t.cx.rng.gen_range(1..9))
                     .map(|_| {
                         let p = libp2p::PeerId::random();
                         let addrs: Vec<Value> = (0..t.cx.rng.gen_range(1..4))
@@ -562,7 +563,9 @@ impl C17 {
                 b[0] = 0x91;
                 b[1] = t.cx.rng.gen_range(0..10);
             }
-            let r = gen::record(libp2p::kad::RecordKey::from(vec![0u8; 32]), b.clone());
+            // the key is stored bytes too: a peer chooses it (0, 1, 2, 3, 33, 64 bytes as well as the usual 32)
+            let klen = *[32usize, 32, 0, 1, 2, 3, 33, 64].choose(&mut t.cx.rng).expect("nonempty");
+            let r = gen::record(libp2p::kad::RecordKey::from(gen::bytes(&mut t.cx.rng, klen)), b.clone());
             t.run("RecordHeader::from_record", hex(&b), || ant_protocol::storage::RecordHeader::from_record(&r).is_ok());
             t.run("try_deserialize_record", hex(&b), || ant_protocol::storage::try_deserialize_record::<ant_protocol::storage::Chunk>(&r).is_ok());
         }
